@@ -194,11 +194,13 @@ pub fn run_parent(n_units: usize, workers: usize, mem_limit_kb: u64, stall_secs:
         child: Child,
         last_marker: Option<usize>,
         last_change: Instant,
+        /// CPU seconds of the worker process when its marker last moved
+        cpu_at_change: f64,
         merged_base: Report,
         start: usize,
         skip: Vec<usize>,
     }
-    let mut slots: Vec<Option<Slot>> = (0..workers).map(|k| Some(Slot { child: spawn(k, 0, &[]), last_marker: None, last_change: Instant::now(), merged_base: Report::new(), start: 0, skip: vec![] })).collect();
+    let mut slots: Vec<Option<Slot>> = (0..workers).map(|k| Some(Slot { child: spawn(k, 0, &[]), last_marker: None, last_change: Instant::now(), cpu_at_change: 0.0, merged_base: Report::new(), start: 0, skip: vec![] })).collect();
     let mut crashes = Vec::new();
     let mut done = 0;
     while done < workers {
@@ -206,12 +208,18 @@ pub fn run_parent(n_units: usize, workers: usize, mem_limit_kb: u64, stall_secs:
         for k in 0..workers {
             let Some(slot) = slots[k].as_mut() else { continue };
             let m = read_marker(&dir, k);
+            let cpu_now = crate::cputime::process_cpu_secs(slot.child.id());
             if m != slot.last_marker {
                 slot.last_marker = m;
                 slot.last_change = Instant::now();
+                slot.cpu_at_change = cpu_now.unwrap_or(slot.cpu_at_change);
             }
             let status = slot.child.try_wait().expect("try_wait");
-            let stalled = status.is_none() && m.is_some() && slot.last_change.elapsed().as_secs_f64() > stall_secs;
+            // the limit is CPU time of the worker since it announced the unit (a loaded machine must
+            // not turn "slow" into a verdict); a worker that neither finishes nor burns CPU for 30x
+            // the limit in wall time is blocked, which is a hang as well
+            let cpu_used = cpu_now.map_or(0.0, |c| c - slot.cpu_at_change);
+            let stalled = status.is_none() && m.is_some() && (cpu_used > stall_secs || slot.last_change.elapsed().as_secs_f64() > 30.0 * stall_secs);
             if stalled {
                 let _ = slot.child.kill();
                 let _ = slot.child.wait();
@@ -230,7 +238,7 @@ pub fn run_parent(n_units: usize, workers: usize, mem_limit_kb: u64, stall_secs:
                 (None, false) => {}
                 (st, _) => {
                     // died or stalled: the announced unit is the culprit
-                    let how = if stalled { format!("did not finish within {stall_secs}s (killed)") } else { format!("worker process died: {:?}", st.unwrap()) };
+                    let how = if stalled { format!("did not finish within {stall_secs}s of CPU time (killed)") } else { format!("worker process died: {:?}", st.unwrap()) };
                     let (next, partial) = match latest_dump(&dir, k) {
                         Some(v) => (v["next_unit"].as_u64().map(|x| x as usize), Some(report_from_value(&v))),
                         None => (None, None),
@@ -262,6 +270,7 @@ pub fn run_parent(n_units: usize, workers: usize, mem_limit_kb: u64, stall_secs:
                             slot.child = spawn(k, slot.start, &slot.skip);
                             slot.last_marker = None;
                             slot.last_change = Instant::now();
+                            slot.cpu_at_change = 0.0;
                         }
                         None => {
                             report.machinery_errors.push(format!("isolated worker {k} died outside any unit: {how}"));
